@@ -34,17 +34,17 @@ REQUIRED_LABELS = {"order:noncanonical": 0.05, "mode:generic": 0.2, "filter-fire
 
 
 def budget(tier):
-    n = int(os.environ.get("KV_EXAMPLES", 0)) or (3000 if tier == "quick" else 40000)
+    n = int(os.environ.get("KV_EXAMPLES", 0)) or (9000 if tier == "quick" else 60000)
     return {"examples": n, "shards": 8 if tier == "quick" else 16, "wall": 90 if tier == "quick" else 900}
 
 
 @st.composite
 def _cases(draw, dmax):
-    cfg = draw(S.configs(0, dmax, custom=0.2, named=dmax >= 4, dweights=[0, 1, 2, 2, 3, 3, 3, 4, 4] + [5] * (dmax >= 5)))
+    cfg = draw(S.configs(0, dmax, custom=0.2, named=dmax >= 4, dweights=[0, 1, 2, 2, 3, 3, 3, 4, 4, 4, 4] + [5, 5] * (dmax >= 5)))
     d = len(cfg["sig"])
-    cap = {0: None, 1: None, 2: None, 3: 8, 4: 6, 5: 4}[d]
+    cap = {0: None, 1: None, 2: None, 3: 8, 4: 6, 5: 5}[d]
     op = draw(st.sampled_from(OPS))
-    classes = ["single", "sparse", "sparse", "gradeblock", "gradeblock", "perm", "perm", "empty", "fullcanon"]
+    classes = ["single", "sparse", "sparse", "gradeblock"] + ["puregrade"] * 5 + ["perm", "perm", "empty", "fullcanon"]
     a = draw(S.operand(d, classes=classes, max_len=cap))
     b = draw(S.operand(d, classes=classes, max_len=cap)) if op != "normsq" else None
     return {"cfg": cfg, "op": op, "a": a, "b": b, "mode": draw(st.sampled_from(["generic", "generic", "frac"])),
